@@ -127,7 +127,8 @@ impl PciTransport {
             }
             let cap_len = capability.private_header as u8;
             let cfg_type = (capability.private_header >> 8) as u8;
-            if cap_len < 16 {
+            if cap_len < 16 || usize::from(capability.offset) + usize::from(cap_len) > 256 {
+                // Too short, or claims to extend beyond the end of the configuration space.
                 continue;
             }
             let struct_info = VirtioCapabilityInfo {
